@@ -71,6 +71,10 @@ type World struct {
 	ctlBy  map[string]*Ctl
 	Env    []EnvModel
 	nameSeq int
+	// FreeQueues: safety mode. Every controller may reconcile every primary object it knows at any time
+	// (a sound over-approximation: informer resyncs wake level-triggered controllers spuriously anyway);
+	// queue contents are then irrelevant and not part of the state key. Liveness checks use real queues.
+	FreeQueues bool
 
 	// Panics recovered from real code during the current transition.
 	LastPanic *lib.Panic
@@ -301,4 +305,18 @@ func (w *World) As(actor string, f func() error) ([]Write, error) {
 func accessor(o runtime.Object) metav1.Object {
 	a, _ := meta.Accessor(o)
 	return a
+}
+
+// Reset empties the world for the next scenario (the controllers created by the real setup code stay).
+func (w *World) Reset() {
+	w.Store.objs = map[ObjKey]runtime.Object{}
+	w.Store.uidSeq, w.Store.seq, w.Store.Log = 0, 0, nil
+	w.Env = nil
+	w.nameSeq = 0
+	setClock(T0)
+	grace.VerifRestore(nil)
+	expectations.VerifRestore(nil)
+	for _, c := range w.Ctls {
+		c.Queue = newQueue(getClock)
+	}
 }
